@@ -92,6 +92,23 @@ def order(ctx: Any) -> List[Ob]:
     from .c05 import index_shape_obligations
 
     obs.extend(index_shape_obligations(ctx, R))
+    # a rename takes effect in the very next probe: every record memo that the probe path reads is reset by the name setter
+    # (the registry clears all memos only when the service is finally inserted, after the probing)
+    from .c03 import _memo_slots
+
+    info_c = prog.cls('zeroconf._services.info.ServiceInfo')
+    slots = _memo_slots(ctx)
+    probe_closure = ctx.cg.closure([zc.methods['generate_service_query']], include_deferred=False)
+    probe_slots = sorted(a for a, b in slots.items() if b in probe_closure)
+    setter = info_c.setters.get('name')
+    if setter is None or not probe_slots:
+        raise AnalysisError(f'anchor vanished: ServiceInfo.name setter / memo slots read while probing ({probe_slots})')
+    sm = setter.params[0]
+    reset = {t.attr for t, st in attr_stores(setter.node) if self_attr(t, sm) and isinstance(st, ast.Assign) and isinstance(st.value, ast.Constant) and st.value.value is None}
+    if any(isinstance(c, ast.Call) and call_name(c) == 'async_clear_cache' for c in walk_local_ordered(setter.node)):
+        reset |= set(slots)
+    for a in probe_slots:
+        obs.append(ob(R, setter, f'self.{a} = None', f'renaming the service drops memo `{a}`, which the probe for the new name reads', a in reset, f'the name setter leaves `{a}` in place: probes for the new name still propose the record built for the old one'))
     ct = conflict_tests[0]
     call = next(c for c in ct.calls() if call_name(c) == 'current_entry_with_name_and_alias')
     obs.append(ob(R, g, call, 'the conflict check looks for a live pointer of the service type to the proposed instance name', [norm(a) for a in call.args] == [f'{g.params[1]}.type', f'{g.params[1]}.name']))
